@@ -14,7 +14,8 @@ ID = 'C15'
 LEVEL = 'exploration'
 RULE = ('an outer pty plays the user of interact(): keystroke chunks over all byte values, multi-byte text and bursts > 1000 '
         'bytes; escape character absent / first / middle / last / repeated in one read / a non-default one / None; '
-        'input_filter and output_filter on/off; pending buffer empty/non-empty; child output interleaved; session ended by '
+        'input_filter and output_filter on/off (identity, upper, doubling, dropping and growing filters, incl. a length '
+        'change before the escape character in the same read); pending buffer empty/non-empty; child output interleaved; session ended by '
         'the escape or by the child exiting; bytes/unicode; select/poll. From the exact chunk returned by every stdin read '
         '(os proxy in the driver): the inner raw-mode child must receive filter(d) up to the first escape and nothing '
         'afterwards; the outer master must receive pending + output_filter(each child read); interact must return; '
